@@ -83,6 +83,42 @@ Theorem C01_engine_output_tokens :
 Proof. exact engine_output_tokens. Qed.
 Print Assumptions C01_engine_output_tokens.
 
+(** (3b) The same for EVERY well-formed value, strings included (any split of
+    any str / bytes value, each multi-line strategy, subclass wrappers, dict
+    keys): the raw tokens of the stream the model of the engine really emits -
+    the text under each syntax-token annotation, comments and blanks dropped -
+    GLUE to the tokens of [expr_of v]: every non-string token is itself, and
+    each string VALUE is the run of literal pieces  prefix q escape(l_k) q  of
+    one non-empty split l_1 .. l_n of it (concat = the value), bare or inside
+    one pair of parentheses.  That each such literal denotes l_k is
+    C02_escape_roundtrip.  (Proofs/StrBridge.v: a second bridge whose raw
+    tokens may nest annotations, the token projection of each document the
+    string printer can evaluate to, and the layout induction over DT with the
+    contextual case discharged by it.) *)
+From PP Require Import StrBridge.
+Theorem C01_engine_output_tokens_all :
+  forall (printable sp wd lb : N -> bool) (fuel ff : nat) (v : pyval) (indent width rw : Z)
+         (depth : option Z) (maxlen : Z) (sort : bool) (out : list sdoc),
+    wf_val v ->
+    sdocs_model printable sp wd lb fuel ff v indent width rw depth maxlen sort = Some out ->
+    exists raw, rtoks (strip out) NNormal = raw /\
+                Glue printable raw (etoks (expr_of (mkE depth maxlen sort) v false)).
+Proof. exact engine_output_tokens_all. Qed.
+Print Assumptions C01_engine_output_tokens_all.
+
+(** Non-vacuity: a bytes value split over two lines inside a list at width 12
+    (no line shorter than the 10-column floor) - the raw tokens are the
+    bracket, two  b'..'  pieces, the bracket. *)
+Example C01_engine_string_example :
+  option_map (fun out => rtoks (strip out) NNormal)
+    (sdocs_model (fun _ => true) (fun c => N.eqb c 32) (fun c => negb (N.eqb c 32)) (fun c => N.eqb c 10) 300 300
+       (VList [VBytes [97; 97; 97; 97; 32; 98; 98; 98; 98; 32; 99; 99; 99; 99; 32; 100; 100]%N]) 4 12 12 None 1000 false)
+  = Some ([RTok 13 [91]%N] ++
+          flat_map (piece_rt (fun _ => true) true 39%N)
+                   [[97; 97; 97; 97; 32; 98; 98; 98; 98; 32]; [99; 99; 99; 99; 32; 100; 100]]%N ++
+          [RTok 13 [93]%N]).
+Proof. vm_compute. reflexivity. Qed.
+
 Example C01_engine_example :
   option_map (fun out => stoks (strip out) MNormal)
     (sdocs_model (fun _ => true) (fun c => N.eqb c 32) (fun _ => true) (fun c => N.eqb c 10) 300 300
